@@ -47,6 +47,21 @@ Theorem C34_linearizable :
 Proof. exact (pq_linearizable_qspec pq_mode C34_modes_exclusive). Qed.
 Print Assumptions C34_linearizable.
 
+(* PopWithTimer takes no lock itself: it is a loop of Pop calls (Gen.v lists it as LockNone and
+   the discipline obligation admits it only as this composite).  A history in which one record of
+   the composite call (spanning its sub-calls, returning what the last Pop returned) replaces the
+   records of its failed Pops and of its last Pop is linearizable whenever the history with the
+   sub-call records is: the composite takes effect where its last Pop does. *)
+Theorem C34_popwithtimer_composite :
+  forall (h subs : list (@orec op res)) (last c : @orec op res),
+    linearizable q_fspec [] (h ++ last :: subs) ->
+    Forall (fun e => o_op e = Pop /\ o_res e = RNone) subs ->
+    o_op last = Pop -> o_op c = PopT -> o_res c = o_res last ->
+    o_call c <= o_call last -> o_ret last <= o_ret c ->
+    linearizable q_fspec [] (h ++ [c]).
+Proof. exact popwithtimer_composite. Qed.
+Print Assumptions C34_popwithtimer_composite.
+
 (* no reachable configuration has two threads inside method bodies (race freedom at the level
    of the lock discipline abstraction) *)
 Theorem C34_no_two_in_bodies :
